@@ -31,8 +31,29 @@ macro "chan_elim" : tactic => `(tactic| first
   | (apply recordTx_elim; intro _ _ _ _ _ _)
   | (apply advanceOut_elim; intro _ _ _ _ _ _))
 
-/-- split a procedure body into its paths (zeta-reducing `let`s as they come to the top) -/
-macro "chan_paths" : tactic => `(tactic| repeat' (first | split | dsimp only))
+/-- split a procedure body into its paths; `let`s are moved into the context as they come to the top, so the terms
+    stay small -/
+macro "chan_paths" : tactic => `(tactic| repeat' (first | extract_lets | split))
+
+open Lean Elab Tactic Meta in
+/-- the goal is `P x` with `x` a `let` variable of the context: replace `x` by its value (one step) -/
+elab "unfold_state_let" : tactic => do
+  let g ← getMainGoal
+  g.withContext do
+    let t ← instantiateMVars (← g.getType)
+    match t with
+    | .app f (.fvar id) =>
+      match (← id.getDecl).value? with
+      | some v =>
+        let g' ← g.replaceTargetDefEq (mkApp f v)
+        replaceMainGoal [g']
+      | none => throwError "not a let variable"
+    | _ => throwError "the state is not a variable"
+
+/-- an invariant carried across a call whose result was destructured by `split` -/
+theorem go_pair {I : St → Prop} {go : Call → St → St × Ret} (hgo : ∀ c s, I s → I (go c s).1)
+    {c : Call} {s s1 : St} {r : Ret} (heq : go c s = (s1, r)) (h : I s) : I s1 := by
+  have := hgo c s h; rw [heq] at this; exact this
 
 open Lean in
 /-- generate `NS.emit … NS.cacheExpire`: the invariant `I` is preserved (definitionally) by the helpers that are plain
@@ -117,17 +138,20 @@ macro "frame_congr" : tactic => `(tactic| (
 
 macro "frame_step" hgo:term : tactic => `(tactic| first
   | assumption
-  | apply $hgo
-  | apply Frame.incFailures
-  | apply Frame.setGood
-  | apply Frame.metricsRecord
-  | apply Frame.setServer
-  | (refine Frame.modServer ?hf ?hI; case hf => (intro _; rfl))
-  | apply Frame.emit | apply Frame.slog | apply Frame.ofault | apply Frame.mfault | apply Frame.oof
-  | apply Frame.setQuery | apply Frame.setConn | apply Frame.setSock | apply Frame.modQuery | apply Frame.modConn
-  | apply Frame.modSock | apply Frame.modClient | apply Frame.cacheExpire
-  | chan_elim
-  | frame_congr)
+  | with_reducible apply $hgo
+  | (with_reducible apply go_pair $hgo; assumption)
+  | with_reducible apply Frame.incFailures
+  | with_reducible apply Frame.setGood
+  | with_reducible apply Frame.metricsRecord
+  | with_reducible apply Frame.setServer
+  | (with_reducible refine Frame.modServer ?hf ?hI; case hf => (intro _; rfl))
+  | with_reducible (first
+      | apply Frame.emit | apply Frame.slog | apply Frame.ofault | apply Frame.mfault | apply Frame.oof
+      | apply Frame.setQuery | apply Frame.setConn | apply Frame.setSock | apply Frame.modQuery | apply Frame.modConn
+      | apply Frame.modSock | apply Frame.modClient | apply Frame.cacheExpire)
+  | with_reducible chan_elim
+  | frame_congr
+  | (unfold_state_let; split))
 
 macro "frame_leaf" hgo:term : tactic => `(tactic| repeat (frame_step $hgo))
 
